@@ -1071,38 +1071,27 @@ func (p *Proof) undoAdd(numAdds, numLeaves uint64, cachedHashes []Hash, toDestro
 	}
 
 	// Move positions to their previous positions before the empty roots were destroyed.
-	for _, destroyed := range toDestroy {
-		for i, target := range targetsWithHash.positions {
-			if destroyed <= target {
-				continue
-			}
+	// When an empty root got destroyed, the subtree next to it moved up to the parent
+	// of the empty root. Everything at and below that parent is moved back down. The
+	// roots were destroyed in order so they're put back in the reverse order.
+	for i := len(toDestroy) - 1; i >= 0; i-- {
+		destroyed := toDestroy[i]
+		movedTo := Parent(destroyed, forestRows)
 
-			// If these positions are in different subtrees, continue.
-			subtree, _, _, _ := DetectOffset(target, numLeaves)
-			subtree1, _, _, _ := DetectOffset(destroyed, numLeaves-numAdds)
-			if subtree != subtree1 {
-				continue
-			}
-			if isAncestor(Parent(destroyed, forestRows), target, forestRows) {
-				targetsWithHash.positions[i] = calcPrevPosition(target, destroyed, forestRows)
+		for j, target := range targetsWithHash.positions {
+			if target == movedTo || isAncestor(movedTo, target, forestRows) {
+				targetsWithHash.positions[j] = calcPrevPosition(target, destroyed, forestRows)
 			}
 		}
 
-		for i, target := range proofWithPos.positions {
-			if destroyed <= target {
-				continue
-			}
-			// If these positions are in different subtrees, continue.
-			subtree, _, _, _ := DetectOffset(target, numLeaves)
-			subtree1, _, _, _ := DetectOffset(destroyed, numLeaves-numAdds)
-			if subtree != subtree1 {
-				continue
-			}
-			if isAncestor(Parent(destroyed, forestRows), target, forestRows) {
-				proofWithPos.positions[i] = calcPrevPosition(target, destroyed, forestRows)
+		for j, target := range proofWithPos.positions {
+			if target == movedTo || isAncestor(movedTo, target, forestRows) {
+				proofWithPos.positions[j] = calcPrevPosition(target, destroyed, forestRows)
 			}
 		}
 	}
+	sort.Sort(targetsWithHash)
+	sort.Sort(proofWithPos)
 
 	// Prune all positions that can't exist in the previous forest rows.
 	var err error
@@ -1120,21 +1109,17 @@ func (p *Proof) undoAdd(numAdds, numLeaves uint64, cachedHashes []Hash, toDestro
 		for _, destroyed := range toDestroy {
 			for i := 0; i < proofWithPos.Len(); i++ {
 				target := proofWithPos.positions[i]
-				// If these positions are in different subtrees, continue.
-				subtree, _, _, _ := DetectOffset(destroyed, numLeaves)
-				subtree1, _, _, _ := DetectOffset(target, numLeaves)
-				if subtree == subtree1 || target == destroyed {
+				if target == destroyed || isAncestor(destroyed, target, forestRows) {
 					proofWithPos.Delete(i)
+					i--
 				}
 			}
 
 			for i := 0; i < targetsWithHash.Len(); i++ {
 				target := targetsWithHash.positions[i]
-				// If these positions are in different subtrees, continue.
-				subtree, _, _, _ := DetectOffset(destroyed, numLeaves)
-				subtree1, _, _, _ := DetectOffset(target, numLeaves)
-				if subtree == subtree1 || target == destroyed {
+				if target == destroyed || isAncestor(destroyed, target, forestRows) {
 					targetsWithHash.Delete(i)
+					i--
 				}
 			}
 		}
